@@ -61,7 +61,10 @@ var _ p.DataProvider = urlDataProvider{}
 func (u urlDataProvider) Get(key string) any {
 	// if query param ends with [] its always a slice
 	if len(key) > 2 && key[len(key)-2:] == "[]" {
-		return u.Data[key]
+		if v, ok := u.Data[key]; ok {
+			return v
+		}
+		return nil // a missing parameter is absent, not an empty list
 	}
 
 	if len(u.Data[key]) > 1 {
